@@ -53,7 +53,8 @@ theorem rep_seq_inv {n : Nat} {t : PyTy} {v : PyVal} {j : Json} (h : rep E bad n
     case list.arr vs xs => exact ⟨n, vs, xs, rfl, rfl, rfl, h2⟩
 
 theorem rep_union_inv {n : Nat} {ts : List PyTy} {v : PyVal} {j : Json} (h : rep E bad n (.union ts) v j = true) :
-    ∃ n', n = n' + 1 ∧ ((∃ t ∈ ts, rep E bad n' t v j = true) ∨ rawEnum (rep E bad n') ts v j = true) := by
+    ∃ n', n = n' + 1 ∧ ((∃ t ∈ ts, rep E bad n' t v j = true) ∨
+      ((PyTy.optionalOf ts).isNone = true ∧ rawEnum (rep E bad n') ts v j = true)) := by
   cases n with
   | zero => simp [rep] at h
   | succ n =>
@@ -66,7 +67,7 @@ theorem rep_union_inv {n : Nat} {ts : List PyTy} {v : PyVal} {j : Json} (h : rep
 theorem rep_union_alt {n : Nat} {ts : List PyTy} {v : PyVal} {j : Json} (h : rep E bad n (.union ts) v j = true) :
     ∃ t ∈ ts, ∃ w, rep E bad n t w j = true := by
   obtain ⟨n', rfl, h'⟩ := rep_union_inv E bad h
-  rcases h' with ⟨t, ht, hr⟩ | hr
+  rcases h' with ⟨t, ht, hr⟩ | ⟨_, hr⟩
   · exact ⟨t, ht, v, rep_succ E bad _ _ _ _ hr⟩
   · simp only [rawEnum, List.any_eq_true] at hr
     obtain ⟨t, ht, hh⟩ := hr
@@ -89,8 +90,8 @@ theorem rep_null {n : Nat} {ty : PyTy} {v : PyVal} : rep E bad n ty v .null = tr
     | any => cases v <;> simp [isOfJson] at h2 ⊢
     | none => cases v <;> simp at h2 ⊢
     | union ts =>
-      simp only [Bool.or_eq_true, List.any_eq_true] at h2
-      rcases h2 with ⟨t, _, hr⟩ | hr
+      simp only [Bool.or_eq_true, List.any_eq_true, Bool.and_eq_true] at h2
+      rcases h2 with ⟨t, _, hr⟩ | ⟨_, hr⟩
       · exact ih hr
       · simp only [rawEnum, List.any_eq_true] at hr
         obtain ⟨t, _, hh⟩ := hr
@@ -766,8 +767,8 @@ theorem selfRep_sound : ∀ (k n : Nat) (ty : PyTy) (v : PyVal) (j : Json), self
         exact all2_ofJsonList vs xs (fun v' x' _ hv' => selfRep_sound k n t v' x' hs hv') h2
     | union ts =>
       simp only [selfRepF, List.all_eq_true, Bool.or_eq_true] at hs
-      simp only [Bool.or_eq_true, List.any_eq_true] at h2 ⊢
-      rcases h2 with ⟨t, ht, hr⟩ | hr
+      simp only [Bool.or_eq_true, List.any_eq_true, Bool.and_eq_true] at h2 ⊢
+      rcases h2 with ⟨t, ht, hr⟩ | ⟨_, hr⟩
       · rcases hs t ht with hst | hfl
         · exact Or.inl ⟨t, ht, selfRep_sound k n t v j hst hr⟩
         · cases t <;> try (simp at hfl; done)
@@ -819,8 +820,8 @@ theorem rep_none_val {n : Nat} {ty : PyTy} {x : Json} : rep E bad n ty .none x =
     | none => cases x <;> simp at h2 ⊢
     | obj => cases x <;> simp [isOfJson] at h2
     | union ts =>
-      simp only [Bool.or_eq_true, List.any_eq_true] at h2
-      rcases h2 with ⟨t, _, hr⟩ | hr
+      simp only [Bool.or_eq_true, List.any_eq_true, Bool.and_eq_true] at h2
+      rcases h2 with ⟨t, _, hr⟩ | ⟨_, hr⟩
       · exact ih hr
       · simp only [rawEnum, List.any_eq_true] at hr
         obtain ⟨t, _, hh⟩ := hr
@@ -849,6 +850,7 @@ theorem tyConv_sound {nn : Bool} {a b : PyTy} (h : tyConv bad nn a b = true) {n 
   · cases b <;> try (simp at hall; done)
     case union bs =>
       simp only [List.all_eq_true, Bool.or_eq_true, Bool.and_eq_true] at hall
+      obtain ⟨hall, hopt⟩ := hall
       have key : ∀ t ∈ altsOf a, ∀ w, rep E bad n t w x = true → t ∈ bs := by
         intro t ht w hw
         rcases hall t ht with hin | ⟨hnn', htn⟩
@@ -861,14 +863,23 @@ theorem tyConv_sound {nn : Bool} {a b : PyTy} (h : tyConv bad nn a b = true) {n 
         unfold rep
         simp only [Bool.and_eq_true, Bool.not_eq_true', Bool.or_eq_true, List.any_eq_true]
         refine ⟨hb, ?_⟩
-        rcases hh with ⟨t, ht, hrt⟩ | hraw
+        rcases hh with ⟨t, ht, hrt⟩ | ⟨_, hraw⟩
         · have hrt' := rep_succ E bad _ _ _ _ hrt
           exact Or.inl ⟨t, key t (by simpa [altsOf] using ht) v hrt', hrt'⟩
         · right
-          simp only [rawEnum, List.any_eq_true] at hraw ⊢
+          simp only [rawEnum, List.any_eq_true] at hraw
           obtain ⟨t, ht, hh'⟩ := hraw
           cases t <;> try (simp at hh'; done)
           case enum e =>
+            have hoptb : (PyTy.optionalOf bs).isNone = true := by
+              rcases hopt with h1 | h2
+              · exact h1
+              · have : (altsOf (PyTy.union as)).any PyTy.isEnumTy = true := by
+                  simp only [altsOf, List.any_eq_true]
+                  exact ⟨_, ht, rfl⟩
+                simp [this] at h2
+            simp only [Bool.and_eq_true, rawEnum, List.any_eq_true]
+            refine ⟨hoptb, ?_⟩
             cases v <;> cases x <;> try (simp at hh'; done)
             all_goals
               simp only [Bool.and_eq_true] at hh'
@@ -888,7 +899,7 @@ theorem tyConv_sound {nn : Bool} {a b : PyTy} (h : tyConv bad nn a b = true) {n 
       rw [← PyTy.eqb_sound hte]
       subst ha
       obtain ⟨n', rfl, hh⟩ := rep_union_inv E bad hr
-      rcases hh with ⟨u, hu, hru⟩ | hraw
+      rcases hh with ⟨u, hu, hru⟩ | ⟨_, hraw⟩
       · rcases hmem u hu with rfl | rfl
         · exact rep_succ E bad _ _ _ _ (rep_succ E bad _ _ _ _ hru)
         · exact absurd (rep_noneTy E bad hru) hxn
